@@ -61,6 +61,10 @@ def _p2(e):
 def decide(line, out):
     t = line.split()
     op = t[0]
+    if out == "T:skipped":
+        return "nospec", None
+    if out.startswith("T:"):
+        return "violates", "%s: the call did not return within the time limit (no result at all)" % op
     if out.startswith("E:") or out.startswith("?"):
         return "nospec", None
     try:
@@ -195,6 +199,11 @@ def _decide(op, t, out):
         ref = round_ref(prec, 'd', e)
         if Fraction(ref[0]) * _p2(ref[1]) == e and val(r) != e:
             return "violates", "pow_int: exact power is representable but result differs"
+        # results whose exact value needs few bits are correctly rounded (the exact-power regime of the code)
+        if n >= 0 and (n <= 2 or x[1] == 1 or x[3] * n < 1000):
+            cr = round_ref(prec, rnd, e)
+            if Fraction(cr[0]) * _p2(cr[1]) != val(r):
+                return "violates", "pow_int: small exact power is not correctly rounded (rnd=%s)" % rnd
         # within one ulp
         u = ulp(prec, e)
         if rnd == 'n' and abs(val(r) - e) > u:
